@@ -37,7 +37,7 @@ def q_qnl(shape, lname, noext, wmax, insertion="relative"):
         # zero-length waits are legal gaps; drop them from the message list so the input stays canonical
         b.msgs = [m for m in b.msgs if not (m.message_type == WAIT and isinstance(m.time, int) and m.time == 0)]
         ctx.assume(distinct_keys_or_disjoint(ctx, b.notes))
-        if insertion == "relative":
+        if insertion in ("relative", "via_quantise_and_normalise"):
             seq = rel_sequence(b.msgs)
         else:
             # absolute messages added through the public API with the LATER note first (ties keep insertion order)
@@ -50,7 +50,10 @@ def q_qnl(shape, lname, noext, wmax, insertion="relative"):
                 m_.time = e.t
                 ms.append(m_)
             seq = abs_sequence(ms)
-        if values is None:
+        if insertion == "via_quantise_and_normalise":
+            # the combined entry point with a grid of every tick (onsets cannot move) must honour the same arguments
+            seq.quantise_and_normalise(step_sizes=[1], note_values=list(values), do_not_extend=noext)
+        elif values is None:
             seq.quantise_note_lengths(do_not_extend=noext)
         else:
             seq.quantise_note_lengths(list(values), do_not_extend=noext)
@@ -103,7 +106,7 @@ def q_qnl(shape, lname, noext, wmax, insertion="relative"):
         return [obs_events(ea, da)]
     cl = ["paired", "durations_allowed", "notes_are_input_notes", "no_duplicates", "no_overlap", "removed_iff_nothing_fits",
           "closest_fitting_value", "other_events_untouched"] + (["never_longer"] if noext else [])
-    return Query(f"{shape}/{lname}/{'noext' if noext else 'ext'}/w{wmax}{'/late-first' if insertion != 'relative' else ''}", fn, cl,
+    return Query(f"{shape}/{lname}/{'noext' if noext else 'ext'}/w{wmax}{'/' + insertion if insertion != 'relative' else ''}", fn, cl,
                  desc=f"quantise_note_lengths({values if values else 'default'}, do_not_extend={noext}) on shape {shape}")
 
 
@@ -118,6 +121,7 @@ def queries(tier, seed):
             qs.append(q_qnl("n1", "default", noext, 40))
             qs.append(q_qnl("n2same", "default", noext, 20))
             qs.append(q_qnl("n2same", "gap", noext, 50))
+            qs.append(q_qnl("n2same", "fine", noext, 16, insertion="via_quantise_and_normalise"))
             qs.append(q_qnl("n2same", "desc", noext, 30, insertion="late-first"))
             qs.append(q_qnl("n2same", "asc", noext, 30, insertion="late-first"))
     else:
